@@ -16,6 +16,9 @@ from .live import lean_str, LiveError
 
 BUILTIN_CALLS = {'len', 'int', 'list', 'tuple', 'set', 'sorted', 'any', 'all', 'max', 'min', 'enumerate', 'dict'}
 MUTATORS = {'add', 'append', 'update'}
+# methods that change an *external* object held in a local: `bits.invert(0)` becomes `bits = <.invert!>(bits, 0)`, the
+# external returning the object after the change
+EXT_MUTATORS = {'invert'}
 BINOPS = {ast.Add: '+', ast.Sub: '-', ast.Mult: '*', ast.Div: '/', ast.Mod: '%'}
 CMPOPS = {ast.Eq: '==', ast.NotEq: '!=', ast.Lt: '<', ast.LtE: '<=', ast.Gt: '>', ast.GtE: '>=',
           ast.Is: 'is', ast.IsNot: 'isnot', ast.In: 'in', ast.NotIn: 'notin'}
@@ -74,6 +77,9 @@ FUNCTIONS = [
     ('checkpoint_handle', 'dataflows.processors.checkpoint', ['checkpoint', 'handle_flow_checkpoint'], ['self.steps']),
     ('checkpoint_preprocess', 'dataflows.processors.checkpoint', ['checkpoint', '_preprocess_chain'],
      ['self.filename', 'self.chain', 'self.checkpoint_path', 'self.checkpoint_name']),
+    # sort_rows: the rendering of one row's sort key (numbers through their flipped IEEE bit pattern)
+    ('sort_key_func', 'dataflows.processors.sort_rows', ['KeyCalc', '__calculator', 'func'], ['key_spec', 'formatters']),
+    ('sort_process', 'dataflows.processors.sort_rows', ['_sorter', 'process'], ['key_calc']),
     # extended JSON: the encoder's dispatch on the type of a value
     ('ejson_default', 'dataflows.helpers.extended_json', ['CommonJSONEncoder', 'default'], ['TIME_F_FORMAT', 'DATETIME_F_FORMAT', 'DATE_F_FORMAT']),
     # the exception funnel of the driver
@@ -230,11 +236,18 @@ class Tr:
         return out if len(gens) == 1 or mode != '.list' else self.call('flatten', [out])
 
     def callexpr(self, n):
-        if any(isinstance(a, ast.Starred) for a in n.args) or any(k.arg is None for k in n.keywords):
+        if any(isinstance(a, ast.Starred) for a in n.args) or any(
+                k.arg is None and not (isinstance(k.value, ast.Dict) and all(x is not None for x in k.value.keys)) for k in n.keywords):
             return self.unsup('star arguments')
         args = [self.e(a) for a in n.args]
-        # keyword arguments travel as trailing (name, value) pairs; only external callables accept them
-        kwargs = [self.call('mk.tuple', ['(.const (.str %s))' % lean_str(k.arg), self.e(k.value)]) for k in n.keywords]
+        # keyword arguments travel as trailing (name, value) pairs; only external callables accept them.  `**{k: v}` with a
+        # dict display contributes its pairs (the names are computed)
+        kwargs = []
+        for k in n.keywords:
+            if k.arg is None:
+                kwargs += [self.call('mk.tuple', [self.e(kk), self.e(vv)]) for kk, vv in zip(k.value.keys, k.value.values)]
+            else:
+                kwargs.append(self.call('mk.tuple', ['(.const (.str %s))' % lean_str(k.arg), self.e(k.value)]))
         if kwargs:
             f = n.func
             name = None
@@ -309,6 +322,10 @@ class Tr:
                     and self.name_of(v.func.value) is not None and not v.keywords:
                 return '(.mut %s %s %s)' % (lean_str(self.name_of(v.func.value)), lean_str(v.func.attr),
                                             self.args([self.e(a) for a in v.args]))
+            if isinstance(v, ast.Call) and isinstance(v.func, ast.Attribute) and v.func.attr in EXT_MUTATORS \
+                    and isinstance(v.func.value, ast.Name) and not v.keywords:
+                nm = v.func.value.id
+                return '(.assign %s %s)' % (lean_str(nm), self.call('.%s!' % v.func.attr, ['(.var %s)' % lean_str(nm)] + [self.e(a) for a in v.args]))
             return '(.expr %s)' % self.e(v)
         if isinstance(n, ast.Assign):
             if len(n.targets) != 1:
